@@ -41,12 +41,20 @@ class Files(staticfiles.BaseFiles[WSGIApp]):
         self.set_response_headers(response)
         return response
 
+    @staticmethod
+    def request_path(environ: Environ) -> str:
+        """
+        PEP 3333 hands the path over as bytes presented in latin-1; the names in the
+        file system are text, i.e. the UTF-8 reading of those bytes (as in `URL`).
+        """
+        return environ.get("PATH_INFO", "").encode("latin1").decode("utf8", "replace")
+
     def __call__(
         self, environ: Environ, start_response: StartResponse
     ) -> Iterable[bytes]:
         if_none_match: str = environ.get("HTTP_IF_NONE_MATCH", "")
         if_modified_since: str = environ.get("HTTP_IF_MODIFIED_SINCE", "")
-        filepath = self.ensure_absolute_path(environ.get("PATH_INFO", ""))
+        filepath = self.ensure_absolute_path(self.request_path(environ))
         stat_result, is_file = self.check_path_is_file(filepath)
         if is_file and stat_result:
             assert filepath is not None  # Just for type check
@@ -76,7 +84,7 @@ class Pages(Files):
     ) -> Iterable[bytes]:
         if_none_match: str = environ.get("HTTP_IF_NONE_MATCH", "")
         if_modified_since: str = environ.get("HTTP_IF_MODIFIED_SINCE", "")
-        filepath = self.ensure_absolute_path(environ.get("PATH_INFO", ""))
+        filepath = self.ensure_absolute_path(self.request_path(environ))
         stat_result, is_file = self.check_path_is_file(filepath)
         if (
             stat_result is None  # filepath is not exist
